@@ -93,6 +93,8 @@ void run_copymove(Ctx &c, int op, int after, Build build, Answers answers, Modif
     dst.reset();
     src.reset();
     c.nontrivial = after != KEEP_SRC;
+    if (c.want_sample())
+        c.sample(J().str("operation", cm_op_names[op]).str("aftermath", cm_after_names[after]).num("answers_compared", expected.size()));
 }
 
 inline void cm_pick(Ctx &c, int &op, int &after) {
